@@ -802,8 +802,8 @@ func startMainWatchdog() {
 	go func() {
 		for {
 			time.Sleep(5 * time.Second)
-			if time.Now().Unix()-lastProgress.Load() > 90 {
-				fmt.Fprintln(os.Stderr, "WATCHDOG: harness made no progress for 90s (code under test blocked the main goroutine outside a simulation)")
+			if time.Now().Unix()-lastProgress.Load() > 240 {
+				fmt.Fprintln(os.Stderr, "WATCHDOG: harness made no progress for 240s (code under test blocked the main goroutine outside a simulation)")
 				buf := make([]byte, 1<<18)
 				n := runtime.Stack(buf, true)
 				os.Stderr.Write(buf[:n])
